@@ -12,3 +12,21 @@ int64_t lanes_good(const int64_t* v) {
     __m128i s = _mm_add_epi64(x, _mm_srli_si128(x, 8));
     return _mm_cvtsi128_si64(_mm_unpackhi_epi64(s, s));
 }
+
+/* ---- R23 signed bit test: the sign-bit lane of a mask under a signed compare */
+void bit_test_bad(const uint8_t* in, uint8_t* out) {
+    __m128i bits = _mm_set1_epi8((char)in[0]);
+    __m128i mask = _mm_set_epi8((char)0x80, 0x40, 0x20, 0x10, 0x08, 0x04, 0x02, 0x01,
+                                (char)0x80, 0x40, 0x20, 0x10, 0x08, 0x04, 0x02, 0x01);
+    __m128i masked = _mm_and_si128(bits, mask);
+    __m128i zero = _mm_setzero_si128();
+    _mm_storeu_si128((__m128i*)out, _mm_sub_epi8(zero, _mm_cmpgt_epi8(masked, zero)));   /* lane 0x80 is negative */
+}
+void bit_test_good(const uint8_t* in, uint8_t* out) {
+    __m128i bits = _mm_set1_epi8((char)in[0]);
+    __m128i mask = _mm_set_epi8(0x40, 0x40, 0x20, 0x10, 0x08, 0x04, 0x02, 0x01,
+                                0x40, 0x40, 0x20, 0x10, 0x08, 0x04, 0x02, 0x01);
+    __m128i masked = _mm_and_si128(bits, mask);
+    __m128i zero = _mm_setzero_si128();
+    _mm_storeu_si128((__m128i*)out, _mm_sub_epi8(zero, _mm_cmpgt_epi8(masked, zero)));
+}
